@@ -106,6 +106,11 @@ def run():
         designs = []
     else:
         p1 = programs(4 if quick else 5)
+        # two pause cycles by one thread (a cycle without wait() first, then
+        # one with): too long for the enumerated family of the quick tier
+        for extra in ('PCPWC', 'PWCPWC', 'PCPWCQR'):
+            if list(extra) not in p1:
+                p1.append(list(extra))
         pairs = []
         small = [p for p in programs(3)]
         for a, b in itertools.product(small, small):
